@@ -195,3 +195,57 @@ LEMMAS['C09/quota-order'] = dict(
     hyps=['n >= 1', '0 <= llq', 'llq <= lt', 'lt <= luq'],
     uses=[('C08/spread-monotone', {'n': 'n', 'a': 'llq', 'b': 'lt'}), ('C08/spread-monotone', {'n': 'n', 'a': 'lt', 'b': 'luq'})],
     goals=[('lower-target-upper-pointwise', 'forall(k, 0, n, 0 <= share(llq, k) and share(llq, k) <= share(lt, k) and share(lt, k) <= share(luq, k))')])
+
+# ---- SUM: monotonicity and the squeeze lemma (both by induction on the length)
+LEMMAS['SUM/le'] = dict(
+    vars={'f': ('list', 'int'), 'g': ('list', 'int'), 'n': 'int'},
+    hyps=['n >= 0', 'forall(j, 0, n, f[j] <= g[j])'],
+    induct=('m', '0', 'n', 'Sum(j, m, f[j]) <= Sum(j, m, g[j])'))
+LEMMAS['SUM/squeeze'] = dict(
+    vars={'f': ('list', 'int'), 'g': ('list', 'int'), 'n': 'int'},
+    hyps=['n >= 0', 'forall(j, 0, n, f[j] <= g[j])'],
+    # after m terms the total gap dominates every single gap seen so far (and is non-negative)
+    induct=('m', '0', 'n', 'Sum(j, m, g[j]) - Sum(j, m, f[j]) >= 0 and forall(q, 0, m, g[q] - f[q] <= Sum(j, m, g[j]) - Sum(j, m, f[j]))'),
+    goals=[('equal-sums-force-pointwise-equality', 'implies(Sum(j, n, f[j]) >= Sum(j, n, g[j]), forall(q, 0, n, f[q] == g[q]))')])
+LEMMAS['SUM/const'] = dict(
+    vars={'n': 'int', 'cst': 'int'}, hyps=['n >= 0'],
+    induct=('m', '0', 'n', 'Sum(j, m, cst) == m * cst'))
+
+# ---- C01: the closure-gated constraint pair means "closed and empty, or within the quotas"
+LEMMAS['C01/closure-pair'] = dict(
+    vars={'S': 'int', 'lq': 'int', 'uq': 'int'},
+    hyps=['S >= 0', 'lq >= 0'],
+    goals=[('exists-closure-value-iff-empty-or-within-quotas',
+            'exists(cl, 0, 2, S + cl * lq >= lq and S + cl * uq <= uq) == (S == 0 or (lq <= S and S <= uq))')])
+
+# ---- C05: the logical core of the stability encoding, over abstract list quantities of one acceptable pair p = (s_i, p_j), l_k:
+#      x[q] in {0,1}  value of the q-th pair of l_k's list;  cnd[q] = 1 iff l_k ranks that student at least as well as s_i and it is
+#      another student;  prj[q] = 1 iff that pair is for p_j;  A = number of s_i's assigned pairs at rank <= rank(p) (0 or 1);
+#      d, c = capacities of l_k, p_j.  Not blocking  <=>  A >= 1 or Lk >= d or Pj >= c  <=>  alpha, beta in {0,1} exist.
+_C05 = {'fl': (['q'], 'ite(cnd[q] == 1, x[q], 0)'), 'fp': (['q'], 'ite(cnd[q] == 1 and prj[q] == 1, x[q], 0)'), 'gp': (['q'], 'ite(prj[q] == 1, x[q], 0)'),
+        'Lk': ([], 'Sum(q, n, fl(q))'), 'Pj': ([], 'Sum(q, n, fp(q))'), 'loadL': ([], 'Sum(q, n, x[q])'), 'loadP': ([], 'Sum(q, n, gp(q))'),
+        'someone_not_preferred': ([], 'exists(q, 0, n, x[q] == 1 and cnd[q] != 1)'),
+        'someone_at_pj_not_preferred': ([], 'exists(q, 0, n, x[q] == 1 and prj[q] == 1 and cnd[q] != 1)'),
+        'blocks': ([], 'A == 0 and ((loadP() < c and loadL() < d) or (loadP() < c and loadL() >= d and someone_not_preferred())'
+                       ' or (loadP() >= c and someone_at_pj_not_preferred()))')}
+LEMMAS['C05/no-blocking-iff'] = dict(
+    vars={'x': ('list', 'int'), 'cnd': ('list', 'int'), 'prj': ('list', 'int'), 'n': 'int', 'd': 'int', 'c': 'int', 'A': 'int'},
+    defs=_C05,
+    hyps=['n >= 0', 'forall(q, 0, n, x[q] == 0 or x[q] == 1)', 'A == 0 or A == 1', 'd >= 0', 'c >= 0',
+          ('capacities-respected', 'loadL() <= d and loadP() <= c')],
+    uses=[('SUM/squeeze', {'f': 'lam(q, n, fl(q))', 'g': 'lam(q, n, x[q])', 'n': 'n'}),
+          ('SUM/squeeze', {'f': 'lam(q, n, fp(q))', 'g': 'lam(q, n, gp(q))', 'n': 'n'}),
+          ('SUM/ext', {'f': 'lam(q, n, fl(q))', 'g': 'lam(q, n, x[q])', 'n': 'n'}, 'if-applicable'),
+          ('SUM/ext', {'f': 'lam(q, n, fp(q))', 'g': 'lam(q, n, gp(q))', 'n': 'n'}, 'if-applicable')],
+    goals=[('not-blocking-iff-one-of-three', '(not blocks()) == (A >= 1 or Lk() >= d or Pj() >= c)')])
+LEMMAS['C05/alpha-beta-gamma'] = dict(
+    vars={'Lk': 'int', 'Pj': 'int', 'd': 'int', 'c': 'int', 'A': 'int'},
+    hyps=['Lk >= 0', 'Pj >= 0', 'd >= 0', 'c >= 0', 'A == 0 or A == 1'],
+    goals=[('alpha-beta-exist-iff-one-of-three',
+            'exists(al, 0, 2, exists(be, 0, 2, (0 - d) * al + Lk >= 0 and (0 - c) * be + Pj >= 0 and (1 - A) - al - be <= 0)) == (A >= 1 or Lk >= d or Pj >= c)')])
+# ---- C02: witness-in-bounds for the size-type objective variables: a sum of n row sums each <= 1 is <= n
+LEMMAS['C02/size-bound'] = dict(
+    vars={'r': ('list', 'int'), 'n': 'int'},
+    hyps=['n >= 0', 'forall(i, 0, n, 0 <= r[i] and r[i] <= 1)'],
+    uses=[('SUM/le', {'f': 'r', 'g': 'lam(i, n, 1)', 'n': 'n'}), ('SUM/const', {'n': 'n', 'cst': '1'}), ('SUM/le', {'f': 'lam(i, n, 0)', 'g': 'r', 'n': 'n'}), ('SUM/const', {'n': 'n', 'cst': '0'})],
+    goals=[('number-of-assigned-students-between-0-and-n', '0 <= Sum(i, n, r[i]) and Sum(i, n, r[i]) <= n')])
